@@ -286,6 +286,12 @@ func c10HTTP(env *Env, rep *Report) int {
 				viol("gateway-exited", fmt.Sprintf("after %s: %s", rc.Name, tail(g.Log(), 300)))
 				break
 			}
+			if as != nil {
+				if cr := as.Crashed(); cr != "" {
+					viol("panic-ends-the-authentication-service", fmt.Sprintf("after %s: %s", rc.Name, tail(cr, 600)))
+					break
+				}
+			}
 			if n%300 == 1 {
 				rep.sample(map[string]any{"part": "b (HTTP level, real binary)", "config": cfg.Name, "input": rc.Name, "status": r.Status, "closed_without_response": r.Closed})
 			}
